@@ -35,3 +35,25 @@ package oidc
 //@ prop C14 C19
 //@ ensures[error-means-nothing] ret1 != nil ==> ret0 == nil
 
+
+// ------------------------------------------------------------------ C04: what go-oidc is asked to check
+//@ func (ProviderVerifierOptions).toOIDCConfig
+//@ prop C04
+//@ ensures[signature-issuer-and-expiry-are-left-to-go-oidc-audience-is-ours] result != nil && result.ClientID == p.ClientID
+//@     && result.SkipIssuerCheck == p.SkipIssuerVerification && result.SkipClientIDCheck && !result.SkipExpiryCheck
+//@     && !result.InsecureSkipSignatureCheck
+
+//@ func NewProviderVerifier
+//@ prop C04
+//@ at call NewVerifier assert[verifier-built-from-these-options] arg(NewVerifier, 1) == ret(toVerificationOptions)
+//@     && arg(NewVerifier, 0) == ret(verifierBuilder) && arg(verifierBuilder, 0) == ret(toOIDCConfig)
+
+//@ func (ProviderVerifierOptions).toVerificationOptions
+//@ prop C04
+//@ ensures[audience-options-copied] result.ClientID == p.ClientID && result.AudienceClaims == p.AudienceClaims && result.ExtraAudiences == p.ExtraAudiences
+
+//@ func NewVerifier
+//@ safety
+//@ prop C04
+//@ loop 0 invariant[client-id-stays-allowed] rangeindex >= -1 && inmap(allowedAudiences, vo.ClientID)
+//@     && forall j int :: 0 <= j && j <= rangeindex ==> inmap(allowedAudiences, vo.ExtraAudiences[j])
